@@ -1,50 +1,63 @@
 ------------------------------ MODULE EditsGen ------------------------------
 (***************************************************************************)
 (* Enumerates the document space of C16 (Edits.tla section 2) and, for     *)
-(* every document x layout x number of exporting modules, checks the       *)
+(* every document x layout x set of exporting modules, checks the          *)
 (* theorems that tie the pieces of the specification together, then prints *)
 (* the case (abstract document, concrete text, workspace) as one JSON line *)
 (* for the replay on the real language server.                             *)
 (*                                                                         *)
 (* The state graph is a tree root -> shape -> document so that TLC workers *)
-(* share the work: a shape fixes the sequence of imported modules, the     *)
-(* number of exporters and the layout; its successors are all choices of   *)
+(* share the work: a shape fixes the sequence of import keys, the          *)
+(* exporters and the layout; its successors are all choices of   *)
 (* `;`, comment kind and blank line per import.                            *)
 (***************************************************************************)
 EXTENDS Edits, Json
 
-CONSTANTS MaxImports,     \* 0..3
-          UseLayouts,     \* subset of Layouts: the layouts of documents with at most two imports
-          Layouts3,       \* subset of Layouts: the layouts of documents with three imports
-          NExporters      \* subset of {1, 2}
+CONSTANTS MaxImports,     \* 0..3: base family (imports of A, B, C; exporters A or A and E)
+          FewMax,         \* base documents with at most this many imports are laid out in
+          UseLayouts,     \*   these layouts (subset of Layouts),
+          Layouts3,       \*   longer ones in these
+          NExporters,     \* subset of {1, 2}
+          \* extended family: at least one import names K from the non-exporting module W, or comes from a
+          \* nested module; the exporter is A or the nested module Lib.Exp
+          ExtMaxFull,     \* documents of up to this many imports get every `;`/comment/blank choice
+          ExtMaxLite,     \* longer ones, up to this many imports: `;` x LiteCmts, no blank line
+          LiteCmts,       \* subset of CommentKinds
+          ExtLayouts      \* subset of Layouts
 
 VARIABLE st
-\* [lvl |-> "root" | "shape" | "doc", mods |-> Seq(module), imps |-> Seq(ImportEntry), nexp, layout]
+\* [lvl |-> "root" | "shape" | "doc", fam |-> "base" | "ext", keys |-> Seq(import key),
+\*  imps |-> Seq(ImportEntry), exps |-> Seq(exporting module), layout]
 
-\* sequences of distinct modules of length n ("any order")
-RECURSIVE DistinctSeqs(_)
-DistinctSeqs(n) ==
+\* sequences of distinct keys of length n ("any order")
+RECURSIVE DistinctSeqs(_, _)
+DistinctSeqs(pool, n) ==
   IF n = 0 THEN {<<>>}
-  ELSE {Append(s, m) : s \in DistinctSeqs(n - 1), m \in ImportPool}
-NoRepeat(s) == \A i, j \in 1..Len(s) : i # j => s[i] # s[j]
-ModSeqs == UNION {{s \in DistinctSeqs(n) : NoRepeat(s)} : n \in 0..MaxImports}
+  ELSE {Append(s, m) : s \in DistinctSeqs(pool, n - 1), m \in pool}
+NoRepeat(s) == \A i, j \in 1..Len(s) : i # j => ModOf(s[i]) # ModOf(s[j])
+BaseSeqs == UNION {{s \in DistinctSeqs(BaseKeys, n) : NoRepeat(s)} : n \in 0..MaxImports}
+ExtSeqs  == UNION {{s \in DistinctSeqs(BaseKeys \cup ExtKeys, n) :
+                      NoRepeat(s) /\ \E i \in 1..n : s[i] \in ExtKeys} : n \in 1..ExtMaxLite}
 
-Attrs == [semi : BOOLEAN, cmt : CommentKinds, blank : BOOLEAN]
-\* all attribute choices for a sequence of modules
-AttrSeqs(n) == [1..n -> Attrs]
+Attrs     == [semi : BOOLEAN, cmt : CommentKinds, blank : BOOLEAN]
+LiteAttrs == [semi : BOOLEAN, cmt : LiteCmts, blank : {FALSE}]
+BaseExporters == {e \in ExporterChoices : (e = <<"A">> /\ 1 \in NExporters) \/ (e = <<"A", "E">> /\ 2 \in NExporters)}
+ExtExporters  == {<<"A">>, <<"Lib.Exp">>}
 
-Init == st = [lvl |-> "root", mods |-> <<>>, imps |-> <<>>, nexp |-> 0, layout |-> ""]
+Init == st = [lvl |-> "root", fam |-> "", keys |-> <<>>, imps |-> <<>>, exps |-> <<>>, layout |-> ""]
 
 Next ==
   \/ /\ st.lvl = "root"
-     /\ \E ms \in ModSeqs, ne \in NExporters :
-        \E lay \in (IF Len(ms) >= 3 THEN Layouts3 ELSE UseLayouts) :
-          st' = [lvl |-> "shape", mods |-> ms, imps |-> <<>>, nexp |-> ne, layout |-> lay]
+     /\ \/ \E ks \in BaseSeqs, ex \in BaseExporters :
+             \E lay \in (IF Len(ks) > FewMax THEN Layouts3 ELSE UseLayouts) :
+               st' = [lvl |-> "shape", fam |-> "base", keys |-> ks, imps |-> <<>>, exps |-> ex, layout |-> lay]
+        \/ \E ks \in ExtSeqs, ex \in ExtExporters, lay \in ExtLayouts :
+               st' = [lvl |-> "shape", fam |-> "ext", keys |-> ks, imps |-> <<>>, exps |-> ex, layout |-> lay]
   \/ /\ st.lvl = "shape"
-     /\ \E as \in AttrSeqs(Len(st.mods)) :
+     /\ \E as \in [1..Len(st.keys) -> (IF st.fam = "ext" /\ Len(st.keys) > ExtMaxFull THEN LiteAttrs ELSE Attrs)] :
           st' = [st EXCEPT !.lvl = "doc",
-                           !.imps = [i \in 1..Len(st.mods) |->
-                                       ImportEntry(st.mods[i], as[i].semi, as[i].cmt, as[i].blank)]]
+                           !.imps = [i \in 1..Len(st.keys) |->
+                                       ImportEntry(st.keys[i], as[i].semi, as[i].cmt, as[i].blank)]]
   \/ /\ st.lvl = "doc"
      /\ UNCHANGED st
 
@@ -63,20 +76,23 @@ ReadsBack ==
 
 \* T2: a fix that starts a new line after the last import satisfies the expectation on every document
 NewlineFixGood ==
-  IsDoc => \A m \in ToSet(Exporters(st.nexp)) : Good(Text, Fix(Text, m, K, "newline"), m, K)
+  IsDoc => \A m \in ToSet(st.exps), v \in {"newline", "newline-extent"} : Good(Text, Fix(Text, m, K, v), m, K)
 
 \* T3: the fix the implementation computes today (no separator) satisfies it exactly when there is no
 \* import or the character before the insertion point ends a token by itself: the `;` of the last import
 \* or the `/` that closes a block comment.  In particular gluing in front of `class` (zero imports) is
 \* fine, and after `import { Bar } from B` or after a line comment it is not.
-GlueOk ==
-  LET e == Fix(Text, "A", K, "glue")[1]
+GlueOk(v) ==
+  LET e == Fix(Text, "A", K, v)[1]
       before == Before(Text[e.sl + 1], e.sc)
   IN Len(st.imps) = 0 \/ (before # "" /\ SubSeq(before, Len(before), Len(before)) \in {";", "/"})
 GlueFixGoodIffSeparated ==
-  IsDoc => \A m \in ToSet(Exporters(st.nexp)) : Good(Text, Fix(Text, m, K, "glue"), m, K) <=> GlueOk
+  IsDoc => \A m \in ToSet(st.exps), v \in {"glue", "glue-extent"} : Good(Text, Fix(Text, m, K, v), m, K) <=> GlueOk(v)
 \* ... which needs the `;` unless a block comment follows
-GlueOkNeedsSemicolon == IsDoc => (LastHasSemi => GlueOk) /\ (GlueOk /\ ~LastHasSemi => st.layout = "tight")
+GlueOkNeedsSemicolon ==
+  IsDoc => /\ LastHasSemi <=> GlueOk("glue")
+           /\ LastHasSemi => GlueOk("glue-extent")
+           /\ (GlueOk("glue-extent") /\ ~LastHasSemi) => st.layout = "tight"
 
 \* ApplyEdits: applying two disjoint edits in either order of presentation gives the same text, and an
 \* insertion followed by the deletion of what was inserted is the identity (sanity of section 1)
@@ -95,14 +111,20 @@ ApplySane ==
               /\ ~WellFormed(T, <<[e0 EXCEPT !.ec = Len(T[1]) + 1]>>)
               /\ (Len(T[1]) > 1 => ~WellFormed(T, <<[e0 EXCEPT !.ec = 2], [e0 EXCEPT !.sc = 1, !.ec = 1]>>))
 
+Mods == {ModOf(k) : k \in (IF st.fam = "base" THEN BaseKeys ELSE BaseKeys \cup ExtKeys)} \cup ToSet(st.exps)
+\* K is already named in an import of the document (of a module that does not export it)
+AlreadyNamed == \E i \in 1..Len(st.imps) : K \in ToSet(st.imps[i].names)
+Dotted(m) == \E j \in 1..Len(m) : SubSeq(m, j, j) = "."
 Case ==
-  [doc |-> [imports |-> st.imps, layout |-> st.layout, nexp |-> st.nexp],
+  [doc |-> [imports |-> st.imps, layout |-> st.layout, fam |-> st.fam, keys |-> st.keys],
    text |-> JoinLines(Text),
    cls |-> K,
-   exporters |-> Exporters(st.nexp),
-   mods |-> [m \in ImportPool \cup ToSet(Exporters(st.nexp)) |-> ModuleText(m, st.nexp)],
+   exporters |-> st.exps,
+   mods |-> [m \in Mods |-> ModuleText(m, st.exps)],
    last_semi |-> LastHasSemi,
-   pred_glue_ok |-> GlueOk]
+   already_named |-> AlreadyNamed,
+   last_dotted |-> Len(st.imps) > 0 /\ Dotted(st.imps[Len(st.imps)].mod),
+   pred_glue_ok |-> GlueOk("glue")]
 
 Emit == IsDoc => PrintT(<<"CASE", ToJson(Case)>>)
 =============================================================================
